@@ -89,6 +89,16 @@ fn main() {
             }
             std::process::exit(if bad { 1 } else { 0 });
         }
+        "san-workload" => {
+            // mvmon san-workload <seed> <shard> <n> [--prove]
+            let seed: u64 = args.get(2).and_then(|s| s.parse().ok()).unwrap_or(1);
+            let shard: u64 = args.get(3).and_then(|s| s.parse().ok()).unwrap_or(0);
+            let n: usize = args.get(4).and_then(|s| s.parse().ok()).unwrap_or(1);
+            let prove = args.iter().any(|a| a == "--prove");
+            let (done, findings) = mvmon::san::san_workload(seed, shard, n, prove);
+            println!("SAN-SUMMARY seed={seed} shard={shard} programs={done} findings={findings}");
+            std::process::exit(if findings > 0 { 1 } else if done == 0 { 2 } else { 0 });
+        }
         "iter-src" => {
             let stack: Vec<u64> = args[3..].iter().map(|s| s.parse().expect("stack value")).collect();
             mvmon::debugcmd::iter_src(&args[2], &stack);
